@@ -7,8 +7,10 @@ corpus/engine-cyclic; the same replays are run on the real engine on every `tool
 the implementation answers line by line what the as-is model answers), and with the corresponding
 findings switched to "repaired" the model returns the from-scratch values.
 
-`{}` (default `Toggles`) is the code as it is NOW: findings F2 and F16 were fixed in /repo (commits
-531aeb1, 3fbfd09).  `before` is the code before those two fixes; the `…_asis_fails_F2/F16…`
+`{}` (default `Toggles`) is the code as it is NOW: findings F2, F16 and F33 were fixed in /repo
+(commits 531aeb1, 3fbfd09, 4685b5a; F33 = `check_cyclic_internal` without a visited set, reachable
+only through interleaved repair tasks, which this sequential model does not have — except through
+the pre-3fbfd09 path of the F16 hang witness).  `before` is the code before those three fixes; the `…_asis_fails_F2/F16…`
 witnesses are HISTORICAL (they are about `before`), each paired with a `…_fixed_…` theorem stating
 that the current configuration returns the from-scratch answer on the same replay.  F3, F30, F31
 still fail as-is.
@@ -45,8 +47,8 @@ def threeEpochs (t : Toggles) (p : Program) (ws₁ : List Write) (r₁ : List Ke
     let _ ← session p ws₃
     round t p r₃) {})
 
-/-- the code before the fixes of F2 and F16 -/
-def before : Toggles := { f2 := false, f16 := false }
+/-- the code before the fixes of F2, F16 and F33 -/
+def before : Toggles := { f2 := false, f16 := false, f33 := false }
 
 def input : NodeDef := { kind := .input, dflt := 0, prog := .ret 0 }
 
